@@ -94,8 +94,11 @@ ADDED = {
     "C20": "the cache is filled by loading the name the caller gave (the same load Debug mode makes), the normalised name being only the key",
 }
 
+CLAIMED["C15"] = ("constant-table extraction (symbol table, trim cut sets evaluated as character sets), provenance of the text node's flags, path-guard queries, and evaluation of the spaceless pattern (with its fix-point loop) on an exhaustive small alphabet",
+    "the delimiters that carry a `-` are exactly `{{-`, `-}}`, `{%-`, `-%}` and a token is flagged only behind the test for such a symbol; a text node's trimLeft/afterBlock come from the token before it and trimRight/beforeBlock from the token after it, afterBlock meaning `%}` and beforeBlock `{%`; in the text node the marker trims cut {space, tab, CR, LF} (only white space) from their own end, LStripBlocks cuts exactly {space, tab} from the right end, TrimBlocks removes exactly one leading byte tested to be LF, each only under its own pair of flags; the spaceless pattern and replacement, applied until nothing changes, delete exactly the white-space runs that have a tag on both sides on all 137 257 strings of up to 6 items over {<a>, </a>, <br/>, x, space, LF, tab}, and the tag writes that result",
+    "the metamorphic equality itself (that the output equals rendering the hand-stripped source for every layout); spaceless on malformed markup (stray angle brackets)", "DESIGN.md §3 C15")
+
 NOT_APPLICABLE = {
-    "C15": "metamorphic relation between two renderings over all whitespace layouts (string arithmetic of trim cut points and a regex fix-point); no non-brittle structural necessary condition beyond the token-rewrite-at-execution defect, which is decided under C04/C05",
 }
 
 PENDING_REASON = "static rules for this property are designed (DESIGN.md §3) but not yet built in this revision; not claimed until the check exists"
